@@ -6,7 +6,8 @@ Open Scope string_scope.
 Open Scope list_scope.
 
 Record fcase := FC {
-  fc_id : nat; fc_lang : option string;          (* the language named in this execution's context *)
+  fc_id : nat; fc_default : string;              (* the default language i18n was installed with *)
+  fc_lang : option string;                       (* the language named in this execution's context *)
   fc_dtype : string; fc_code : string; fc_params : list (string * string); fc_value : string;
   fc_test_msg : option string;                   (* Message option of the test *)
   fc_exec_msg : option string;                   (* what the execution's formatter sets, if one was given *)
@@ -21,7 +22,7 @@ Fixpoint contains_braces (s : string) : bool :=
   end.
 Definition check_fcase (c : fcase) : verdict :=
   let expected := choose_message (fc_test_msg c) (fc_exec_msg c)
-                    (i18n_format shipped2 "en" (fc_lang c) (fc_dtype c) (fc_code c) (fc_params c) (fc_value c)) in
+                    (i18n_format shipped2 (fc_default c) (fc_lang c) (fc_dtype c) (fc_code c) (fc_params c) (fc_value c)) in
   let tags := (if String.eqb expected (fc_obs c) then [] else ["message"])
               ++ (if (negb (String.eqb (fc_obs c) "") && negb (contains_braces (fc_obs c)))
                      || match fc_exec_msg c with Some EmptyString => true | _ => false end   (* the user's own formatter set nothing *)
